@@ -20,6 +20,7 @@ partial-order reduction). Replaying a prefix must reproduce the recorded keys: a
 hard harness error.
 """
 import hashlib
+import os
 import itertools
 import sqlite3
 
@@ -62,6 +63,7 @@ class Execution(object):
         self.enabled_at = []
         self.preempt = []                            # cumulative preemptions before step i
         self.tabdig = {}
+        self.dirty = set()        # tables written by a commit whose digest is not refreshed yet
         self.begin_dig = [None] * self.n
         self.begin_gens = [None] * self.n
         self.main = greenlet.getcurrent()
@@ -76,6 +78,14 @@ class Execution(object):
                 self.tabdig[t] = _h(rows)
         finally:
             c.close()
+
+    def _refresh(self):
+        # SQLAlchemy's 'commit' event fires BEFORE the DB-API commit, so the tables a transaction
+        # wrote are only marked there and re-read here, at the next point where the scheduler or a
+        # beginning transaction looks at the database (the commit has completed by then).
+        if self.dirty:
+            d, self.dirty = self.dirty, set()
+            self._digest_tables(sorted(d))
 
     def _gens(self):
         c = sqlite3.connect('file:%s?mode=ro' % self.eng.h.dbfile, uri=True)
@@ -94,13 +104,14 @@ class Execution(object):
         self.main.switch(('begin', i))
         # resumed by the scheduler: this request runs its next transaction now
         self.eng.probe.cur = run
+        self._refresh()
         self.begin_dig[i] = dict(self.tabdig)
         self.begin_gens[i] = self._gens()
 
     def _on_end_txn(self, run, txn):
         i = run.name
         if txn.outcome == 'commit' and txn.writes:
-            self._digest_tables([t for t in txn.writes if t in self.eng.cols])
+            self.dirty |= {t for t in txn.writes if t in self.eng.cols}
         bd = self.begin_dig[i] or self.tabdig
         o = _h((sorted((t, bd.get(t)) for t in txn.reads if t in self.eng.cols),
                 sorted(txn.writes), txn.outcome))
@@ -132,6 +143,7 @@ class Execution(object):
         return msg
 
     def key(self):
+        self._refresh()
         per = []
         for i in range(self.n):
             if self.resps[i] is not None:
@@ -282,13 +294,21 @@ class Engine(object):
                         if prev is not None and (bound is None or prev <= cost):
                             stats['pruned'] += 1
                             pruned = True
+                            if os.environ.get('VP_TRACE'):
+                                print('pruned', ex.choices, 'matches', self._dbg.get(k))
                             break
                         visited[k] = cost
+                        if os.environ.get('VP_TRACE'):
+                            self._dbg = getattr(self, '_dbg', {})
+                            self._dbg[k] = list(ex.choices)
                     step += 1
             finally:
                 if ex.enabled():
                     ex.kill()
-            complete = not pruned
+            # an execution cut by state matching at its very last step has still run to the end:
+            # judge it too (rules on the transactions' own observations are not part of the key of
+            # a finished request)
+            complete = not pruned or not ex.enabled()
             stats['max_preemptions'] = max(stats['max_preemptions'], cost)
             if complete and not ex.enabled():
                 stats['leaves'] += 1
